@@ -1,14 +1,71 @@
 //go:build verif
 
-// Contracts for package frame, read by /verif's govc (see /verif/DESIGN.md). Comment-only: with the verif
-// tag off this file is not compiled, and with it on it adds no code.
+// Contracts for package frame, read by /verif's govc (see /verif/DESIGN.md). Besides //@ comments this file holds
+// ghost lemma functions (compiled only under the verif tag, never called by the library).
 package frame
+
+import "bytes"
 
 //@ inv (*codec) codecsNonNil: forall op primitive.OpCode :: has(self.messageCodecs, op) ==> self.messageCodecs[op] != nil
 
 //@ func (*codec).ConvertFromRawFrame
 //@   prop C04, C05
 //@   requires hdr: frame.Header != nil
+//@   ensures header: result1 == nil ==> result0 != nil && result0.Header == frame.Header && result0.Body != nil
+
+// ---- C05: the raw (header-only / opaque body) operations move exactly the declared number of bytes -------------
+
+// reading a raw body consumes exactly Header.BodyLength bytes and returns exactly those bytes; a negative length is refused
+//@ func (*codec).DecodeRawBody
+//@   prop C05, C04
+//@   assigns rstream(source)
+//@   let p0 = pos(source)
+//@   ensures refuses: header.BodyLength < 0 ==> err != nil
+//@   ensures consumed: err == nil ==> pos(source) == p0 + int(header.BodyLength) && len(body) == int(header.BodyLength)
+//@   ensures bytes: err == nil ==> forall k int :: 0 <= k && k < int(header.BodyLength) ==> body[k] == rbyte(source, p0 + k)
+//@   ensures bounded: pos(source) <= p0 + ite(header.BodyLength > 0, int(header.BodyLength), int(0))
+
+// discarding a body skips exactly Header.BodyLength bytes, on seekable and on plain readers alike (for a seekable
+// source shorter than the declared length the position stops at its end: nothing more can be read either way)
+//@ func (*codec).DiscardBody
+//@   prop C05, C04
+//@   assigns rstream(source)
+//@   let p0 = pos(source)
+//@   ensures refuses: header.BodyLength < 0 ==> err != nil
+//@   ensures consumed: err == nil && p0 + int(header.BodyLength) <= avail(source) ==> pos(source) == p0 + int(header.BodyLength)
+//@   ensures bounded: pos(source) <= p0 + ite(header.BodyLength > 0, int(header.BodyLength), int(0))
+
+// a raw frame is the decoded header followed by exactly the declared number of body bytes, taken as they are
+//@ func (*codec).DecodeRawFrame
+//@   prop C05, C04
+//@   assigns rstream(source)
+//@   let p0 = pos(source)
+//@   ensures header: result1 == nil ==> result0 != nil && result0.Header != nil && headerRead(source, p0, result0.Header) && specVersion(result0.Header.Version) && ite(result0.Header.IsResponse, specResponseOpCode(result0.Header.OpCode), specRequestOpCode(result0.Header.OpCode))
+//@   ensures raw: result1 == nil ==> result0 != nil && result0.Header != nil && result0.Header.BodyLength >= 0 && len(result0.Body) == int(result0.Header.BodyLength) && pos(source) == p0 + ite(result0.Header.Version >= primitive.ProtocolVersion3, int(9), int(8)) + int(result0.Header.BodyLength)
+//@   ensures bytes: result1 == nil ==> forall k int :: 0 <= k && k < len(result0.Body) ==> result0.Body[k] == rbyte(source, pos(source) - len(result0.Body) + k)
+
+// converting to raw form keeps the header object, and the length it declares is the length of the produced body
+//@ func (*codec).ConvertToRawFrame
+//@   prop C05
+//@   requires parts: frame.Header != nil && frame.Body != nil && frame.Body.Message != nil
+//@   ensures header: result1 == nil ==> result0 != nil && result0.Header == frame.Header
+//@   ensures declared: result1 == nil && len(result0.Body) <= 2147483647 ==> int(result0.Header.BodyLength) == len(result0.Body)
+
+// a body compressor touches only the two streams it is given
+//@ iface BodyCompressor.CompressWithLength
+//@   prop C05, C08
+//@   assigns rstream(source), wstream(dest)
+//@ iface BodyCompressor.DecompressWithLength
+//@   prop C05, C08
+//@   assigns rstream(source), wstream(dest)
+
+// a compressed body is decompressed from at most the declared number of bytes
+//@ func (*codec).DecodeBody
+//@   prop C05, C04
+//@   assigns rstream(source)
+//@   let p0 = pos(source)
+//@   ensures nonnil: err == nil ==> body != nil && body.Message != nil
+//@   ensures limited: header.Flags.Contains(primitive.HeaderFlagCompressed) ==> pos(source) <= p0 + ite(header.BodyLength > 0, int(header.BodyLength), int(0))
 
 // ---- C20: frame mutators keep flags and body in step --------------------------------------------------------
 
@@ -100,6 +157,10 @@ package frame
 //@ spec specRequestOpCode(op primitive.OpCode) bool = uint8(op) == 0x01 || uint8(op) == 0x05 || uint8(op) == 0x07 || uint8(op) == 0x09 || uint8(op) == 0x0A || uint8(op) == 0x0B || uint8(op) == 0x0D || uint8(op) == 0x0F || uint8(op) == 0xFF
 //@ spec specResponseOpCode(op primitive.OpCode) bool = uint8(op) == 0x00 || uint8(op) == 0x02 || uint8(op) == 0x03 || uint8(op) == 0x06 || uint8(op) == 0x08 || uint8(op) == 0x0C || uint8(op) == 0x0E || uint8(op) == 0x10
 
+// the header bytes at offset w0 of a writer / p0 of a reader denote exactly h
+//@ spec headerWritten(w io.Writer, w0 int, h *Header) bool = specVersion(h.Version) && wbyte(w, w0) == uint8(h.Version) | ite(h.IsResponse, uint8(0x80), uint8(0)) && wbyte(w, w0+1) == uint8(h.Flags) && ite(h.Version >= primitive.ProtocolVersion3, primitive.wbe2(w, w0+2) == uint16(h.StreamId) && wbyte(w, w0+4) == uint8(h.OpCode) && primitive.wbe4(w, w0+5) == uint32(h.BodyLength), int16(int8(wbyte(w, w0+2))) == h.StreamId && wbyte(w, w0+3) == uint8(h.OpCode) && primitive.wbe4(w, w0+4) == uint32(h.BodyLength))
+//@ spec headerRead(r io.Reader, p0 int, h *Header) bool = h.IsResponse == (rbyte(r, p0) & 0x80 != 0) && uint8(h.Version) == rbyte(r, p0) & 0x7f && uint8(h.Flags) == rbyte(r, p0+1) && ite(h.Version >= primitive.ProtocolVersion3, uint16(h.StreamId) == primitive.rbe2(r, p0+2) && uint8(h.OpCode) == rbyte(r, p0+4) && uint32(h.BodyLength) == primitive.rbe4(r, p0+5), h.StreamId == int16(int8(rbyte(r, p0+2))) && uint8(h.OpCode) == rbyte(r, p0+3) && uint32(h.BodyLength) == primitive.rbe4(r, p0+4))
+
 //@ func (*codec).DecodeHeader
 //@   prop C02, C01, C05, C04
 //@   assigns rstream(source)
@@ -126,6 +187,9 @@ package frame
 //@   requires fits: len(frame.Body) <= 2147483647
 //@   let w0 = written(dest)
 //@   ensures declared: result == nil ==> Z(frame.Header.BodyLength) == Z(len(frame.Body)) && written(dest) == w0 + ite(frame.Header.Version >= primitive.ProtocolVersion3, int(9), int(8)) + len(frame.Body)
+//@   ensures header: result == nil ==> headerWritten(dest, w0, frame.Header)
+//@   ensures body3: result == nil && frame.Header.Version >= primitive.ProtocolVersion3 ==> forall k int :: 0 <= k && k < len(frame.Body) ==> wbyte(dest, w0 + 9 + k) == frame.Body[k]
+//@   ensures body2: result == nil && frame.Header.Version < primitive.ProtocolVersion3 ==> forall k int :: 0 <= k && k < len(frame.Body) ==> wbyte(dest, w0 + 8 + k) == frame.Body[k]
 
 // ---- C15: what connection code may rely on from a frame codec --------------------------------------------------
 //@ iface Codec.EncodeFrame
@@ -147,3 +211,38 @@ package frame
 //@   prop C15
 //@   assigns rstream(source)
 //@   assumes nonnil: result1 == nil ==> result0 != nil && result0.Header != nil && result0.Body != nil && result0.Body.Message != nil
+
+// ---- C05 / C01: raw frames survive encode-then-decode ------------------------------------------------------------
+// The lemma runs the real EncodeRawFrame and then the real DecodeRawFrame on the bytes produced.
+
+func lemmaRawRoundTrip(c *codec, f *RawFrame) (*RawFrame, error) {
+	buf := &bytes.Buffer{}
+	if err := c.EncodeRawFrame(f, buf); err != nil {
+		return nil, err
+	}
+	return c.DecodeRawFrame(buf)
+}
+
+func lemmaHeaderRoundTrip(c *codec, h *Header) (*Header, error) {
+	buf := &bytes.Buffer{}
+	if err := c.EncodeHeader(h, buf); err != nil {
+		return nil, err
+	}
+	return c.DecodeHeader(buf)
+}
+
+//@ func lemmaHeaderRoundTrip
+//@   prop C01, C02
+//@   requires codecs: forall op primitive.OpCode :: has(c.messageCodecs, op) ==> c.messageCodecs[op] != nil
+//@   expand (*frame.codec).DecodeHeader
+//@   expand (*frame.codec).EncodeHeader
+//@   ensures same: result1 == nil ==> result0 != nil && result0.IsResponse == h.IsResponse && result0.Version == h.Version && result0.Flags == h.Flags && result0.StreamId == h.StreamId && result0.OpCode == h.OpCode && result0.BodyLength == h.BodyLength
+//@   ensures accepted: specVersion(h.Version) && ite(h.IsResponse, specResponseOpCode(h.OpCode), specRequestOpCode(h.OpCode)) && (h.Version >= primitive.ProtocolVersion3 || (-128 <= h.StreamId && h.StreamId <= 127)) ==> result1 == nil
+
+//@ func lemmaRawRoundTrip
+//@   prop C05, C01
+//@   requires codecs: forall op primitive.OpCode :: has(c.messageCodecs, op) ==> c.messageCodecs[op] != nil
+//@   requires parts: f.Header != nil && len(f.Body) <= 2147483647
+//@   ensures header: result1 == nil ==> result0 != nil && result0.Header != nil && result0.Header.IsResponse == f.Header.IsResponse && result0.Header.Version == f.Header.Version && result0.Header.Flags == f.Header.Flags && result0.Header.StreamId == f.Header.StreamId && result0.Header.OpCode == f.Header.OpCode && Z(result0.Header.BodyLength) == Z(len(f.Body))
+//@   ensures bodylen: result1 == nil ==> len(result0.Body) == len(f.Body)
+//@   ensures body: result1 == nil ==> forall k int :: 0 <= k && k < len(f.Body) ==> result0.Body[k] == f.Body[k]
